@@ -1,17 +1,41 @@
-(* C17 RubiksCube (physical move, FINITE: cube sizes 2..7 -- the bound is part of the statement): every one of the
-   18*floor(n/2) moves of the model (translated tables + do_rotation) carries the sticker at each position p of the
-   distinct-sticker cube to the position whose 3-D coordinates are the coordinates of p rotated by a quarter /
-   half turn about the turning face's normal when p lies in the turned layer, and leaves it in place otherwise
-   (embed follows the face conventions documented in utils.py).  Proved by vm_compute over the finite domain and
-   lifted with forallb_forall.  The for-all-n version of this geometric statement is NOT proved (stretch goal). *)
+(* C17 RubiksCube (physical move, EVERY cube size n >= 2, every depth d < n/2, every amount): every one of the
+   18*floor(n/2) moves of the model (tables translated from /repo as functions of n and d + do_rotation = rot90 of
+   the turning face when d = 0 + roll of the 4n strip) carries the sticker at each position p to the position whose
+   3-D coordinates are the coordinates of p rotated by (amount mod 4) clockwise quarter turns about the turning
+   face's outward normal when p lies in the turned layer, and leaves it in place otherwise (embed follows the face
+   conventions documented in utils.py; the candidate position unembed(target) is validated by embed(p') = target).
+     C17_RubiksCube_physical            the boolean check physical_b on the distinct-sticker cube, all n >= 2
+     C17_RubiksCube_physical_any_cube   the same as a statement about an ARBITRARY cube c of shape n
+     C17_RubiksCube_physical_2_7_crosscheck   the former finite result (n = 2..7 by vm_compute on the executable
+                                        model), kept as an independent cross-check of the symbolic proof
+   Proof route (Proofs/RubiksCube_Geometry.v, Proofs/RubiksCube_Layer.v): closed form of the strip positions from the
+   rvec evaluator (arange / repeat / flip / concatenate), embed(strip[k+n]) = rotate3 axis (embed(strip[k])) for the
+   6 tables x 4 segments, rot90 on the turning face = rotate3 restricted to that face, layer \ face = strip,
+   amounts -1 and 2 by do_rotation_compose.  n and d are symbolic throughout. *)
 Require Import JV.Base.Prelude JV.Base.JaxIndex JV.Base.Codec JV.Base.TimeStep JV.Gen.RubikTables JV.Model.RubiksCube.
-Require Import JV.Proofs.RubiksCube_Physical.
-Theorem C17_RubiksCube_physical_partial n m :
+Require Import JV.Proofs.RubiksCube_Cube JV.Proofs.RubiksCube_Physical JV.Proofs.RubiksCube_Layer.
+Theorem C17_RubiksCube_physical n m :
+  2 <= n -> In m (all_moves n) -> physical_b n m = true.
+Proof. exact (physical_moves_all n m). Qed.
+Print Assumptions C17_RubiksCube_physical.
+Theorem C17_RubiksCube_physical_any_cube n t d a c p :
+  2 <= n -> In (t, d, a) (all_moves n) -> shape n c -> valid n p ->
+  let v := embed n p in
+  let target := if in_layer n (t_face t) d v then rotate3_pow (Z.to_nat (a mod 4)) (normal (t_face t)) v else v in
+  let p' := unembed n target in
+  valid n p' /\ embed n p' = target /\ cget (apply_move n (t, d, a) c) p' = cget c p.
+Proof. exact (physical_move_any_cube n t d a c p). Qed.
+Print Assumptions C17_RubiksCube_physical_any_cube.
+Theorem C17_RubiksCube_physical_2_7_crosscheck n m :
   In n [2; 3; 4; 5; 6; 7] -> In m (all_moves n) -> physical_b n m = true.
 Proof. exact (physical_moves n m). Qed.
-Print Assumptions C17_RubiksCube_physical_partial.
+Print Assumptions C17_RubiksCube_physical_2_7_crosscheck.
 Example C17_RubiksCube_Physical_nonvacuous :
   length (all_moves 7) = 54%nat /\ length (all_pos 7) = 294%nat /\
   embed 3 (face_FRONT, 0, 0) = (-2, 2, 3) /\ rotate3 (normal face_FRONT) (-2, 2, 3) = (2, 2, 3) /\
-  unembed 3 (2, 2, 3) = (face_FRONT, 0, 2).
+  unembed 3 (2, 2, 3) = (face_FRONT, 0, 2) /\
+  (* an inner-layer move of a 5-cube really moves stickers: front, depth 1, clockwise *)
+  nth 9 (all_moves 5) id_move = (tab_front, 1, 1) /\ in_layer 5 (t_face tab_front) 1 (embed 5 (face_UP, 3, 0)) = true /\
+  unembed 5 (rotate3 (normal face_FRONT) (embed 5 (face_UP, 3, 0))) = (face_RIGHT, 0, 1) /\
+  cget (apply_move 5 (tab_front, 1, 1) (id_cube 5)) (face_RIGHT, 0, 1) = code 5 (face_UP, 3, 0).
 Proof. vm_compute. repeat split; auto. Qed.
